@@ -2,6 +2,7 @@ package main
 
 import (
 	"fmt"
+	"runtime"
 	"strings"
 	"sync"
 	"sync/atomic"
@@ -41,11 +42,11 @@ const (
 const (
 	exResolveReturn = iota
 	exBlockThenResolve
-	exResolveThenBlock // only with ExclusiveWork
-	exNoResolve        // only with ExclusiveWork
-	exResolveTwice     // only with ExclusiveWork
-	exBlockNoResolve   // only with ExclusiveWork
-	exResolveConcurrent // only with ExclusiveWork: resolve called by three goroutines at once (first answer wins)
+	exResolveThenBlock    // only with ExclusiveWork
+	exNoResolve           // only with ExclusiveWork
+	exResolveTwice        // only with ExclusiveWork
+	exBlockNoResolve      // only with ExclusiveWork
+	exResolveConcurrent   // only with ExclusiveWork: resolve called by three goroutines at once (first answer wins)
 	exResolveErrThenBlock // only with ExclusiveWork: resolves with an ERROR result (carrying the value) and keeps running
 )
 
@@ -54,9 +55,159 @@ type valErr int
 
 func (e valErr) Error() string { return fmt.Sprintf("valErr %d", int(e)) }
 
+// exclusiveFirstRace: the zero value Exclusive is usable at once; its very FIRST calls race (one start gate), all on one key (or
+// two). Whatever the lazy initialisation does, at no moment may two work functions of one key execute, and every Call gets an
+// outcome. Repeated on fresh instances (only the first microseconds of an instance are concerned).
+func exclusiveFirstRace(seed int) string {
+	r := rng.New(uint64(seed), "exclusive-firstrace")
+	hung := 0
+	deadline := time.Now().Add(350 * time.Millisecond)
+	trials := 0
+	var over, bad atomic.Int32
+	for trials < 4000 && time.Now().Before(deadline) && over.Load() == 0 && hung == 0 {
+		trials++
+		var e bigbuff.Exclusive
+		nkeys := 1 + r.Intn(2)
+		callers := 3 + r.Intn(7)
+		active := make([]atomic.Int32, nkeys)
+		start := make(chan struct{})
+		var wg sync.WaitGroup
+		work := time.Duration(20+r.Intn(60)) * time.Microsecond
+		for j := 0; j < callers; j++ {
+			k := j % nkeys
+			useStart := r.Chance(20)
+			wg.Add(1)
+			go func() {
+				defer wg.Done()
+				<-start
+				fn := func() (any, error) {
+					if active[k].Add(1) > 1 {
+						over.Add(1)
+					}
+					spin := time.Now()
+					for time.Since(spin) < work {
+					}
+					active[k].Add(-1)
+					return k, nil
+				}
+				if useStart {
+					e.Start(k, fn)
+					return
+				}
+				v, err := e.Call(k, fn)
+				if err != nil || v != k {
+					bad.Add(1)
+				}
+			}()
+		}
+		close(start)
+		if !waitTimeout(&wg, stepTimeout) {
+			hung++
+		}
+	}
+	// executions begun by Start calls may still be running: let them finish (they count, and their hook events must not leak
+	// into the next case)
+	quiet := time.Now().Add(2 * time.Second)
+	for hung == 0 && time.Now().Before(quiet) {
+		busy := false
+		for _, g := range libGoroutines() {
+			if strings.HasPrefix(g, "(*Exclusive)") {
+				busy = true
+			}
+		}
+		if !busy {
+			break
+		}
+		time.Sleep(time.Millisecond)
+	}
+	return fmt.Sprintf("overlaps=%d hung=%d wrong=%d", over.Load(), hung, bad.Load())
+}
+
+// exclusiveWaitEnd: a CallAfter / StartAfter batch whose (short) wait ends while other goroutines keep calling on the same key and on
+// another one: calls that arrive exactly as the wait ends join this batch or the next, and nobody hangs: every Call returns its
+// key's value, on both keys, and work functions of a key never overlap.
+func exclusiveWaitEnd(seed int) string {
+	r := rng.New(uint64(seed), "exclusive-waitend")
+	hung := 0
+	deadline := time.Now().Add(300 * time.Millisecond)
+	var over, bad atomic.Int32
+	for rounds := 0; rounds < 200 && time.Now().Before(deadline) && hung == 0; rounds++ {
+		var e bigbuff.Exclusive
+		active := make([]atomic.Int32, 2)
+		mk := func(k int) func() (any, error) {
+			return func() (any, error) {
+				if active[k].Add(1) > 1 {
+					over.Add(1)
+				}
+				runtime.Gosched()
+				active[k].Add(-1)
+				return k, nil
+			}
+		}
+		wait := time.Duration(300+r.Intn(900)) * time.Microsecond
+		var wg sync.WaitGroup
+		wg.Add(1)
+		go func() {
+			defer wg.Done()
+			if v, err := e.CallAfter(0, mk(0), wait); err != nil || v != 0 {
+				bad.Add(1)
+			}
+		}()
+		stop := time.Now().Add(wait + 400*time.Microsecond)
+		for h := 0; h < 3+r.Intn(4); h++ {
+			k := 0
+			if h == 0 {
+				k = 1
+			}
+			style := r.Intn(3)
+			wg.Add(1)
+			go func() {
+				defer wg.Done()
+				for time.Now().Before(stop) {
+					switch style {
+					case 0:
+						e.Start(k, mk(k))
+					case 1:
+						if v, err := e.Call(k, mk(k)); err != nil || v != k {
+							bad.Add(1)
+						}
+					default:
+						e.StartAfter(k, mk(k), wait/4)
+					}
+				}
+			}()
+		}
+		if !waitTimeout(&wg, stepTimeout) {
+			hung++
+		}
+	}
+	quiet := time.Now().Add(2 * time.Second)
+	for hung == 0 && time.Now().Before(quiet) {
+		busy := false
+		for _, g := range libGoroutines() {
+			if strings.HasPrefix(g, "(*Exclusive)") {
+				busy = true
+			}
+		}
+		if !busy {
+			break
+		}
+		time.Sleep(time.Millisecond)
+	}
+	return fmt.Sprintf("overlaps=%d hung=%d wrong=%d", over.Load(), hung, bad.Load())
+}
+
 func execExclusiveT3(t *trace, script []string) {
 	for _, line := range script {
 		f := strings.Fields(line)
+		if len(f) == 2 && f[0] == "waitend" {
+			t.Line(line, exclusiveWaitEnd(atoi(f[1])))
+			continue
+		}
+		if len(f) == 2 && f[0] == "firstrace" {
+			t.Line(line, exclusiveFirstRace(atoi(f[1])))
+			continue
+		}
 		// "handover <variant> <seed>": the forced schedule around the end of an execution (see below)
 		handover := len(f) == 3 && f[0] == "handover"
 		if !handover && (len(f) != 4 || f[0] != "run") {
@@ -495,6 +646,12 @@ func execExclusiveT3(t *trace, script []string) {
 func genExclusiveT3(r *rng.R, tier string, i int) []string {
 	if i < 16 {
 		return []string{fmt.Sprintf("handover %d %d", i, r.Intn(1<<30))}
+	}
+	if i%5 == 2 {
+		return []string{fmt.Sprintf("firstrace %d", r.Intn(1<<30))}
+	}
+	if i%10 == 9 {
+		return []string{fmt.Sprintf("waitend %d", r.Intn(1<<30))}
 	}
 	keys := 1 + r.Intn(3)
 	calls := 2 + r.Intn(9)
